@@ -471,7 +471,7 @@ def gen_cases(rng, tier):
                 cases.append(build_program(stmts, pos, kind, mode, nested, opts))
     cases += gen_handler_cases(rng, tier, cases)
     for body, name in INSTANT_BODIES:
-        for me in ([12, 40] if tier == "quick" else [5, 12, 40, 120]):
+        for me in ([12, 40] if tier == "quick" else [12, 20, 40, 120]):
             cases.append(instant_case(body, name, me))
     return cases
 
